@@ -106,14 +106,17 @@ class TtsLink(M.Link):
 
     _vf_user = True
     _states = {"rho", "v", "tts"}
+    _disturbances = {"f"}  # a weather factor weighting the time spent (a link kind that owns a disturbance)
 
     def init_vars(self, init_conditions=None, engine=None, **kwargs):
         if engine is None:
             engine = get_current_engine()
         ic = dict(init_conditions or {})
         tts = ic.pop("tts", None)
+        f = ic.pop("f", None)
         super().init_vars(ic, engine, **kwargs)
         self.states["tts"] = tts if tts is not None else engine.var(f"tts_{self.name}")
+        self.disturbances = {"f": f if f is not None else engine.var(f"f_{self.name}")}
 
     def step_dynamics(self, net, *args, T=None, **kwargs):
         nxt = super().step_dynamics(net, *args, T=T, **kwargs)
@@ -121,5 +124,72 @@ class TtsLink(M.Link):
         tot = rho[0]
         for i in range(1, self.N):
             tot = tot + rho[i]
-        nxt["tts"] = self.states["tts"] + T * self.L * self.lam * tot
+        nxt["tts"] = self.states["tts"] + T * self.L * self.lam * tot * self.disturbances["f"]
+        return nxt
+
+
+class Motorway(M.Network):
+    """A user-defined network class (e.g. one that builds a standard stretch in its constructor)."""
+
+    _vf_user = True
+
+    def __init__(self, name=None, operator="-"):
+        super().__init__(name)
+        self.operator = operator
+
+
+class TollPlaza(M.MainstreamOrigin):
+    """A mainstream origin whose inflow is additionally capped (toll plaza / tunnel entrance): overrides the
+    public get_flow of a concrete origin kind."""
+
+    _vf_user = True
+
+    def __init__(self, name=None, cap=None):
+        super().__init__(name)
+        self.cap = cap
+
+    def get_flow(self, net, T, engine=None, **kwargs):
+        q = super().get_flow(net, T, engine, **kwargs)
+        if self.cap is None:
+            return q
+        if engine is None:
+            engine = get_current_engine()
+        return -engine.max(-q, -self.cap)
+
+
+class GatedOrigin(M.Origin):
+    """A state-less origin whose inflow is directly the decision variable `q` (an action, no queue)."""
+
+    _vf_user = True
+    _actions = {"q"}
+
+    def init_vars(self, init_conditions=None, engine=None, **_):
+        if engine is None:
+            engine = get_current_engine()
+        ic = init_conditions or {}
+        self.actions = {"q": ic["q"] if "q" in ic else engine.var(f"q_{self.name}")}
+
+    def get_flow(self, net, engine=None, **_):
+        return self.actions["q"]
+
+
+class QueueLink(M.Link):
+    """A link with an embedded on-ramp queue `w` (a link kind that owns a quantity of the origin family and
+    honours the option that speaks about it, exactly as the stock ramps do in their `init_vars`)."""
+
+    _vf_user = True
+    _states = {"rho", "v", "w"}
+
+    def init_vars(self, init_conditions=None, engine=None, positive_init_queue=False, **kwargs):
+        if engine is None:
+            engine = get_current_engine()
+        ic = dict(init_conditions or {})
+        w = ic.pop("w", None)
+        super().init_vars(ic, engine, **kwargs)
+        w = w if w is not None else engine.var(f"w_{self.name}")
+        self.states["w"] = engine.max(0, w) if positive_init_queue else w
+
+    def step_dynamics(self, net, *args, T=None, **kwargs):
+        nxt = super().step_dynamics(net, *args, T=T, **kwargs)
+        nxt["w"] = self.states["w"] + T * (500.0 - 0.1 * self.states["rho"][0] * self.states["v"][0] * self.lam)
         return nxt
